@@ -63,7 +63,8 @@ where
         Some(("exec", matches)) => {
             load_and_run_from_command_line(Command::Exec, matches.value_of("file").unwrap())?
         }
-        _ => {}
+        // no subcommand at all is bad usage, like an unknown one
+        _ => return Err("expected one of the subcommands `lint`, `parse` or `exec`".into()),
     }
     Ok(())
 }
